@@ -6,7 +6,7 @@ Require Import Yui.Model.KhCube Yui.Model.KhSigns Yui.Model.KhHomology Yui.Model
 Extraction Language OCaml.
 Extraction "../ocaml/gen/c06_model.ml"
   Z.add N.add Nat.add
-  KhSigns.signed_nums KhSigns.crossing_signs
+  KhSigns.signed_nums KhSigns.kh_crossing_signs
   KhCube.mirror KhCube.first_edge KhCube.circles
   KhHomology.build_cube KhHomology.kh_groups
   KhLee.lee_check KhLee.seifert_state.
